@@ -112,7 +112,7 @@ def gen_case(rnd, max_inner, n_caches_max=3):
             d, ps = {'k': kind, 'inner': inner}, [pick() for _ in range(ar)]
         elif kind == 'switch':
             nb = rnd.randint(1, 3)
-            keys = [{'s': 'k0'}, {'s': 'k1'}, {'s': 'zz'}, {'i': 1}]
+            keys = [{'s': 'k0'}, {'s': 'k1'}, {'s': 'zz'}] if rnd.random() < 0.85 else [{'i': 1}, {'i': 0}, {'i': 2}]
             rnd.shuffle(keys)
             table = [[key, rnd.randrange(nb)] for key in keys[:rnd.randint(1, 3)]]
             d, ps = {'k': 'switch', 'table': table, 'n': nb}, [rnd.randrange(n_in) if rnd.random() < 0.7 else pick()] + [pick() for _ in range(nb)]
@@ -251,6 +251,11 @@ def run_case(case):
     g = Graph(leaves, tnodes[case['out']])
     case['counts'] = sorted([INDEX[id(n)], c] for n, c in g.counts.items())
     case['signature'] = [INDEX[id(n)] for n in g.inputs]
+    # the static graph hash (Graph.hash()): HashError for impure edges
+    try:
+        case['graph_hash'] = hash_json(g.hash().value, fname)['G']
+    except BaseException as e:  # noqa
+        case['graph_hash'] = {'exc': type(e).__name__}
     obs = []
     for call in case['calls']:
         sym.bad = set(call['bad'])
